@@ -22,7 +22,7 @@ from ..world import Violation
 
 ID = "C13"
 LEVEL = "exploration"
-BUDGET = {"quick": 150, "thorough": 1500}
+BUDGET = {"quick": 240, "thorough": 1500}
 JOB_TIMEOUT = 240
 MINIMISE_S = {"quick": 60, "thorough": 240}
 RULE = ("a case = one TDM program (1-4 bands, 1-3 (thorough: up to 16) concurrent modes per band, 1-5 time bins, per-bin parameter arrays incl. zeros, "
@@ -52,10 +52,10 @@ def warm(tier):
 def batches(tier):
     if tier == "quick":
         return [
-            {"name": "loop", "runs": 1400, "weight": 4},
-            {"name": "space", "runs": 500, "weight": 2, "seed_offset": 100000},
-            {"name": "history", "runs": 900, "weight": 3, "seed_offset": 200000},
-            {"name": "shift", "runs": 500, "weight": 2, "seed_offset": 300000},
+            {"name": "loop", "runs": 5600, "weight": 4},
+            {"name": "space", "runs": 2000, "weight": 2, "seed_offset": 100000},
+            {"name": "history", "runs": 3600, "weight": 3, "seed_offset": 200000},
+            {"name": "shift", "runs": 2000, "weight": 2, "seed_offset": 300000},
         ]
     return [
         {"name": "loop", "runs": 30000, "weight": 4},
@@ -102,15 +102,19 @@ def generate(seed, tier, batch):
     ops = []
     for _ in range(r.randint(1, 2 + total)):
         x = r.random()
+        def second():
+            # the second parameter of a two-parameter operation is a loop parameter too in a third of the cases
+            return par(3.0) if (npar > 1 and r.random() < 0.35) else rnd(r, 0, 3)
+
         if x < 0.35:
-            ops.append({"op": "Sgate", "p": [par(0.6), 0.0], "m": [r.randrange(total)]})
+            ops.append({"op": "Sgate", "p": [par(0.6), second() if r.random() < 0.5 else 0.0], "m": [r.randrange(total)]})
         elif x < 0.5:
             ops.append({"op": "Rgate", "p": [par(3.0)], "m": [r.randrange(total)]})
         elif x < 0.9 and total > 1:
             a, b = r.sample(range(total), 2)
-            ops.append({"op": "BSgate", "p": [par(1.5), rnd(r, 0, 3)], "m": [a, b]})
+            ops.append({"op": "BSgate", "p": [par(1.5), second()], "m": [a, b]})
         else:
-            ops.append({"op": "Dgate", "p": [par(0.6), rnd(r, 0, 3)], "m": [r.randrange(total)]})
+            ops.append({"op": "Dgate", "p": [par(0.6), second()], "m": [r.randrange(total)]})
     # the leading mode of every band is measured, in band order, as the last commands of the bin
     for j in range(nb):
         ops.append({"op": "MeasureHomodyne", "p": [par(3.0)], "m": [starts[j]]})
